@@ -146,6 +146,25 @@ Theorem wc_rep_is_eq_rep_of_partner p q : In p (g_keys g) -> In q (g_keys g) -> 
 Proof. intros Hp Hq C. destruct (Hm p Hp) as [Ep [Wp [Gp [HEp HWp]]]]. destruct (Hm q Hq) as [Eq [Wq [Gq [HEq HWq]]]].
   unfold wc_rep, eq_rep. rewrite Gp, Gq. apply min_below_ext. intros z. rewrite HWp, HEq. unfold gconn in *.
   rewrite (conn_shift _ _ gsym_eq gsym_wc p true q C false z). simpl. tauto. Qed.
+
+(* ---- consequences used by the file contract (C05) ---- *)
+Theorem eq_rep_idempotent i r : In i (g_keys g) -> In r (g_keys g) -> i < npos -> eq_rep i = Some r -> eq_rep r = Some r.
+Proof. intros Hi Hr Li H. pose proof H as H0. apply (eq_rep_least i r Hi) in H. destruct H as [A [B C]].
+  rewrite <- H0. symmetry. apply same_rep_iff_connected; auto. Qed.
+Theorem eq_rep_le i r : In i (g_keys g) -> i < npos -> eq_rep i = Some r -> r <= i.
+Proof. intros Hi Li H. apply (eq_rep_least i r Hi) in H. destruct H as [A [B C]]. apply C; [constructor | exact Li]. Qed.
+Theorem eq_rep_defined i : In i (g_keys g) -> i < npos -> exists r, eq_rep i = Some r.
+Proof. intros Hi Li. unfold eq_rep. destruct (Hm i Hi) as [E [W [G [HE HW]]]]. rewrite G.
+  assert (In i E) by (apply HE; constructor). clear -H Li. induction E as [|a l IHl]; [destruct H|]. simpl. destruct H as [<-|Hz].
+  - apply Nat.ltb_lt in Li. rewrite Li. destruct (min_below npos l); eauto.
+  - destruct (IHl Hz) as [y Hy]. rewrite Hy. destruct (Nat.ltb a npos); eauto. Qed.
+Theorem wc_of_wc_is_eq i w : In i (g_keys g) -> In w (g_keys g) -> wc_rep i = Some w -> wc_rep w = eq_rep i.
+Proof. intros Hi Hw H. apply (wc_rep_least i w Hi) in H. destruct H as [A _].
+  apply wc_rep_is_eq_rep_of_partner; auto. unfold gconn in *. apply (conn_sym _ _ gsym_eq gsym_wc). exact A. Qed.
+Theorem wc_rep_is_rep i w : In i (g_keys g) -> In w (g_keys g) -> wc_rep i = Some w -> eq_rep w = Some w.
+Proof. intros Hi Hw H. pose proof H as H0. apply (wc_rep_least i w Hi) in H. destruct H as [A [B C]].
+  apply (eq_rep_least w w Hw). split; [constructor | split; [exact B|]]. intros z Hz Lz. apply C; [|exact Lz].
+  unfold gconn in *. pose proof (conn_trans _ _ _ _ _ A _ _ Hz) as T. simpl in T. exact T. Qed.
 End Reps.
 
 (* ---- strand layout formula ---- *)
